@@ -122,8 +122,24 @@ func (e *Engine) externalGlobal(g *ssa.Global) Value {
 		return &hostObj{tag: "os.File", v: "stderr"}
 	case "os.Stdin":
 		return &hostObj{tag: "os.File", v: "stdin"}
+	case "io.EOF":
+		return e.ioEOF()
+	case "io.ErrUnexpectedEOF":
+		return e.namedErr("io.ErrUnexpectedEOF", "unexpected EOF")
+	case "io.ErrShortWrite":
+		return e.namedErr("io.ErrShortWrite", "short write")
 	}
 	return nil
+}
+
+// namedErr: one error value per well-known library error variable and path.
+func (e *Engine) namedErr(key, msg string) Value {
+	if v, ok := e.hostState[key].(Value); ok {
+		return v
+	}
+	v := e.newErr(msg)
+	e.hostState[key] = v
+	return v
 }
 
 func (e *Engine) hostMethod(recv iface, m *types.Func) (Value, bool) {
